@@ -6,6 +6,7 @@ import (
 	"encoding/json"
 	"fmt"
 	"os"
+	"os/exec"
 	"path/filepath"
 	"sort"
 	"strconv"
@@ -246,6 +247,20 @@ func (r *Run) Finish() {
 		"property_id": r.ID, "tier": r.Tier, "seed": r.Seed, "level": r.Level,
 		"coverage": cov, "assumptions": r.assumptions, "wall_s": wall, "violations": len(r.violations),
 	}
+	if sub := os.Getenv("VERIF_SUBRUN"); sub != "" {
+		// sub-run of another check (e.g. the scheduler-based part executed by the instrumented binary):
+		// hand the document, with the violations, to the parent instead of writing evidence
+		doc["violation_list"] = r.violations
+		b, _ := json.Marshal(doc)
+		if err := os.WriteFile(sub, b, 0o644); err != nil {
+			fmt.Fprintf(os.Stderr, "tool error: %v\n", err)
+			os.Exit(2)
+		}
+		if len(r.violations) > 0 {
+			os.Exit(1)
+		}
+		os.Exit(0)
+	}
 	if r.Tier == "quick" || r.Tier == "thorough" {
 		b, _ := json.MarshalIndent(doc, "", " ")
 		p := filepath.Join(Root(), "evidence", r.ID+".json")
@@ -297,6 +312,50 @@ func (r *Run) Finish() {
 		fmt.Printf("  key=%s\n  %s\n", v.Key, v.What)
 	}
 	os.Exit(1)
+}
+
+// RunSub executes `bin id tier` as a sub-run (VERIF_SUBRUN) and merges its coverage (under key name) and
+// violations into r. bin is normally the instrumented binary named by VERIF_INSTR_BIN.
+func (r *Run) RunSub(bin, id, name string) {
+	if bin == "" {
+		ToolError("sub-run %s: no instrumented binary (VERIF_INSTR_BIN unset; run through scripts/check.sh)", id)
+	}
+	tmp, err := os.CreateTemp(filepath.Join(Root(), ".work"), "sub-*.json")
+	if err != nil {
+		ToolError("%v", err)
+	}
+	tmp.Close()
+	defer os.Remove(tmp.Name())
+	cmd := exec.Command(bin, id, r.Tier)
+	cmd.Env = append(os.Environ(), "VERIF_SUBRUN="+tmp.Name())
+	out, err := cmd.CombinedOutput()
+	var doc struct {
+		Coverage   map[string]any `json:"coverage"`
+		Violations []violation    `json:"violation_list"`
+	}
+	b, rerr := os.ReadFile(tmp.Name())
+	if rerr != nil || json.Unmarshal(b, &doc) != nil {
+		ToolError("sub-run %s produced no result (%v): %s", id, err, out)
+	}
+	r.Set(name, doc.Coverage)
+	for _, v := range doc.Violations {
+		r.Violation(v.Key, v.What, v.Replay)
+	}
+	if ex, ok := doc.Coverage["exhaustive"].(bool); ok && !ex {
+		r.Cap(fmt.Sprintf("sub-run %s hit a cap", id))
+	}
+	if n, ok := doc.Coverage["evaluations"].(float64); ok {
+		for i := 0; i < int(n); i++ {
+			r.Eval(fmt.Sprintf("%s#%d", name, i), "")
+		}
+	}
+	if oc, ok := doc.Coverage["outcomes"].(map[string]any); ok {
+		for k, v := range oc {
+			if f, ok := v.(float64); ok {
+				r.Outcome(k, int64(f))
+			}
+		}
+	}
 }
 
 // ToolError aborts without a verdict.
